@@ -138,6 +138,8 @@ type summonProbe struct {
 	finding  string
 	summons  int64
 	judgable int64 // calls that began while an earlier instance was closing
+	// per request goroutine: its vigil was certainly begun before the instance started to close
+	vigilBeforeClose map[int32]bool
 }
 
 func (h *summonProbe) SummonSwamp(ctx context.Context, islandID uint64, swampName name.Name) (swamp.Swamp, error) {
@@ -183,7 +185,39 @@ func (h *summonProbe) SummonSwamp(ctx context.Context, islandID uint64, swampNam
 			h.handed[key] = append(h.handed[key], sw)
 		}
 	}
-	return sw, err
+	return &swampProbe{Swamp: sw, p: h}, err
+}
+
+// swampProbe is what the gateway is handed instead of the instance itself: it notes, per request goroutine,
+// whether the request's vigil had begun before the instance started to close. (Observed AFTER BeginVigil returned: if
+// the instance is not closing then, the vigil certainly preceded any close or destroy, which must then wait for it
+// and keep what the request stores. The opposite observation proves nothing.)
+type swampProbe struct {
+	swamp.Swamp
+	p *summonProbe
+}
+
+func (s *swampProbe) BeginVigil() {
+	s.Swamp.BeginVigil()
+	ctx, cancel := context.WithCancel(context.Background())
+	cancel()
+	err := s.Swamp.WaitForGracefulClose(ctx) // answers at once and changes nothing
+	before := err != nil && err.Error() == "swamp is not closing yet"
+	id := simrt.Self()
+	s.p.mu.Lock()
+	if s.p.vigilBeforeClose == nil {
+		s.p.vigilBeforeClose = map[int32]bool{}
+	}
+	s.p.vigilBeforeClose[id] = before
+	s.p.mu.Unlock()
+}
+
+// vigilHeldBeforeClose reports whether the last vigil the given request goroutine began was certainly begun before
+// its instance started to close.
+func (h *summonProbe) vigilHeldBeforeClose(goroutine int32) bool {
+	h.mu.Lock()
+	defer h.mu.Unlock()
+	return h.vigilBeforeClose[goroutine]
 }
 
 type zeusProbe struct {
